@@ -144,6 +144,12 @@ pub struct WorldOpts {
     pub features: bool,
     /// assignment stress: crossing / crowded objects
     pub stress: bool,
+    /// long single-object lifetimes (bounded histories / galleries)
+    pub long_life: usize,
+    /// look-alike objects (shared appearance prototype) for appearance contests
+    pub lookalikes: bool,
+    /// batches spanning many scenes (queue-depth / back-pressure behaviour)
+    pub wide: bool,
 }
 
 struct Obj {
@@ -163,6 +169,10 @@ struct Obj {
     proto: Vec<f32>,
     custom: Option<i64>,
     alive: bool,
+    /// quality pattern: 0 random, 1 increasing, 2 decreasing, 3 constant
+    qmode: u8,
+    qcur: f32,
+    immortal: bool,
 }
 
 pub const FEAT_DIM: usize = 6;
@@ -234,8 +244,8 @@ fn new_obj(r: &mut Rng, serial: u32, scene: u64, o: &WorldOpts, near: Option<(f3
         scene,
         x,
         y,
-        vx: r.f32() * 12.0 - 6.0,
-        vy: r.f32() * 12.0 - 6.0,
+        vx: r.f32() * 6.0 - 3.0,
+        vy: r.f32() * 6.0 - 3.0,
         aspect: 0.4 + r.f32() * 1.2,
         height: 20.0 + r.f32() * 60.0,
         angle: if o.rotation && r.chance(1, 3) { Some(r.f32() * 3.0 - 1.5) } else { None },
@@ -245,28 +255,41 @@ fn new_obj(r: &mut Rng, serial: u32, scene: u64, o: &WorldOpts, near: Option<(f3
         proto,
         custom: if r.chance(1, 2) { Some(r.below(1000) as i64 - 500) } else { None },
         alive: true,
+        qmode: r.below(4) as u8,
+        qcur: *r.pick(&[0.05f32, 0.35, 0.5, 0.95]),
+        immortal: false,
     }
 }
 
 pub fn gen_tracker_case(seed: u64, o: &WorldOpts) -> TrackerCase {
     let mut r = Rng::new(seed);
     let cfg = gen_cfg(&mut r, o);
-    let n_scenes = r.range(1, o.max_scenes as i64) as u64;
+    let wide = o.wide && r.chance(1, 3);
+    let n_scenes = if wide { r.range(5, 18) as u64 } else { r.range(1, o.max_scenes as i64) as u64 };
     let scene_ids: Vec<u64> = {
         let mut v: Vec<u64> = vec![];
         while (v.len() as u64) < n_scenes {
-            let s = *r.pick(&[0u64, 1, 2, 3, 7, 10, 1_000_003]);
+            let s = if wide { r.below(40) } else { *r.pick(&[0u64, 1, 2, 3, 7, 10, 1_000_003]) };
             if !v.contains(&s) {
                 v.push(s);
             }
         }
         v
     };
-    let frames = if r.chance(1, 4) { r.range(1, 3) } else { r.range(1, o.max_frames as i64) } as usize;
+    let long = o.long_life > 0 && r.chance(1, 2);
+    let frames = if wide {
+        r.range(1, 4) as usize
+    } else if long {
+        r.range((o.long_life / 3).max(1) as i64, o.long_life as i64) as usize
+    } else if r.chance(1, 4) {
+        r.range(1, 3) as usize
+    } else {
+        r.range(1, o.max_frames as i64) as usize
+    };
     let mut serial = 0u32;
     let mut objs: Vec<Obj> = vec![];
     for s in &scene_ids {
-        let n = r.below(o.max_objects as u64 + 1);
+        let n = if wide { r.range(1, 2) as u64 } else { r.below(o.max_objects as u64 + 1) };
         for _ in 0..n {
             let near = if o.stress && !objs.is_empty() && r.chance(1, 2) {
                 let p = &objs[r.below(objs.len() as u64) as usize];
@@ -274,9 +297,23 @@ pub fn gen_tracker_case(seed: u64, o: &WorldOpts) -> TrackerCase {
             } else {
                 None
             };
-            objs.push(new_obj(&mut r, serial, *s, o, near));
+            let mut ob = new_obj(&mut r, serial, *s, o, near);
+            if long {
+                ob.immortal = true;
+            }
+            if o.lookalikes && !objs.is_empty() && r.chance(1, 4) {
+                let src = objs[r.below(objs.len() as u64) as usize].proto.clone();
+                ob.proto = src;
+            }
+            objs.push(ob);
             serial += 1;
         }
+    }
+    if long && objs.is_empty() {
+        let mut ob = new_obj(&mut r, serial, scene_ids[0], o, None);
+        ob.immortal = true;
+        objs.push(ob);
+        serial += 1;
     }
     let mut ops: Vec<TOp> = vec![];
     if o.lifecycle && r.chance(1, 2) {
@@ -288,8 +325,8 @@ pub fn gen_tracker_case(seed: u64, o: &WorldOpts) -> TrackerCase {
             // motion
             ob.x += ob.vx;
             ob.y += ob.vy;
-            ob.vx += r.f32() * 2.0 - 1.0;
-            ob.vy += r.f32() * 2.0 - 1.0;
+            ob.vx = (ob.vx + r.f32() * 1.0 - 0.5).clamp(-8.0, 8.0);
+            ob.vy = (ob.vy + r.f32() * 1.0 - 0.5).clamp(-8.0, 8.0);
             ob.height = (ob.height * ob.grow).clamp(8.0, 200.0);
             if let Some(a) = ob.angle.as_mut() {
                 *a += ob.dangle;
@@ -298,12 +335,12 @@ pub fn gen_tracker_case(seed: u64, o: &WorldOpts) -> TrackerCase {
                 ob.hidden -= 1;
                 continue;
             }
-            if r.chance(1, 12) {
+            if !ob.immortal && r.chance(1, 12) {
                 // disappears for a while: shorter or longer than max_idle
                 ob.hidden = r.range(1, (cfg.max_idle + 3) as i64) as u32;
                 continue;
             }
-            if r.chance(1, 40) {
+            if !ob.immortal && r.chance(1, 40) {
                 ob.alive = false;
                 continue;
             }
@@ -326,13 +363,63 @@ pub fn gen_tracker_case(seed: u64, o: &WorldOpts) -> TrackerCase {
                     f.push(0.001 * (*serial % 1000) as f32);
                     (
                         Some(f),
-                        if r.chance(1, 6) { None } else { Some(*r.pick(&[0.1f32, 0.35, 0.45, 0.55, 0.7, 0.9, 0.9])) },
+                        if r.chance(1, 8) {
+                            None
+                        } else {
+                            Some(match ob.qmode {
+                                1 => {
+                                    ob.qcur = (ob.qcur + 0.013).min(0.99);
+                                    ob.qcur
+                                }
+                                2 => {
+                                    ob.qcur = (ob.qcur - 0.013).max(0.01);
+                                    ob.qcur
+                                }
+                                3 => ob.qcur,
+                                _ => *r.pick(&[0.1f32, 0.35, 0.45, 0.55, 0.7, 0.9, 0.9]),
+                            })
+                        },
                     )
                 }
             } else {
                 (None, None)
             };
             dets.push(Det { b, custom: ob.custom, feature, quality, truth: ob.serial });
+        }
+        // assignment stress: a detection between two neighbouring objects plus one
+        // on the far side of the first, so that first-come / greedy and optimal differ
+        if o.stress && r.chance(1, 3) {
+            let vis: Vec<(f32, f32, f32, f32, Option<f32>, u32)> = objs
+                .iter()
+                .filter(|x| x.scene == scene && x.alive && x.hidden == 0)
+                .map(|x| (x.x, x.y, x.aspect, x.height, x.angle, x.serial))
+                .collect();
+            'find: for i in 0..vis.len() {
+                for j in 0..vis.len() {
+                    if i == j {
+                        continue;
+                    }
+                    let (a, b) = (vis[i], vis[j]);
+                    let w = a.2 * a.3;
+                    let dist = ((a.0 - b.0).powi(2) + (a.1 - b.1).powi(2)).sqrt();
+                    if dist < 0.9 * w.max(a.3) && dist > 1.0 {
+                        let t = 0.35 + r.f32() * 0.3;
+                        let mid = (a.0 + t * (b.0 - a.0), a.1 + t * (b.1 - a.1));
+                        let away = (a.0 - 0.25 * (b.0 - a.0), a.1 - 0.25 * (b.1 - a.1));
+                        dets.retain(|d| d.truth != a.5 && d.truth != b.5);
+                        let mk = |p: (f32, f32), truth: u32| Det {
+                            b: BoxF { xc: p.0, yc: p.1, angle: a.4, aspect: a.2, height: a.3, conf: 1.0 },
+                            custom: None,
+                            feature: None,
+                            quality: None,
+                            truth,
+                        };
+                        dets.push(mk(mid, b.5));
+                        dets.push(mk(away, a.5));
+                        break 'find;
+                    }
+                }
+            }
         }
         // false positive
         if r.chance(1, 10) {
@@ -365,11 +452,11 @@ pub fn gen_tracker_case(seed: u64, o: &WorldOpts) -> TrackerCase {
             objs.push(new_obj(&mut r, serial, s, o, None));
             serial += 1;
         }
-        let use_batch = o.batches && scene_ids.len() > 1 && r.chance(1, 2);
+        let use_batch = o.batches && scene_ids.len() > 1 && (wide || r.chance(1, 2));
         if use_batch {
             let mut scenes = vec![];
             for s in &scene_ids {
-                if r.chance(4, 5) {
+                if wide || r.chance(4, 5) {
                     let d = frame_dets(&mut r, &mut objs, *s, &cfg, &mut serial);
                     if !d.is_empty() {
                         scenes.push((*s, d));
